@@ -37,6 +37,7 @@ def run(ctx):
         ctx.guard("C07", "casts", lambda: casts.census(ctx, prog, scope='hash_dual::', floor=3))
         ctx.guard("C07", "parse-forms", lambda: parser.entry_forms(ctx, prog))
         ctx.guard("C07", "const values", lambda: data.const_census(ctx, prog, data.CONST_SCOPES["C07"], floor=1))
+        ctx.guard("C07", "panic conditions", lambda: beliefs.live_census(ctx, prog, beliefs.SCOPES["C07"][0]))
         ctx.guard("C07", "run-reports", lambda: parser.run_reports(ctx, prog))
         ctx.guard("C07", "summaries", lambda: summary.check(ctx, prog, 'hash_dual::', floor=10))
         ctx.guard("C07", "generic consts", lambda: summary.check_consts(ctx, prog, floor=13))
